@@ -61,9 +61,9 @@ Proof. exact FlowRecvProofs.rx_rejects_exactly. Qed.
    window, where released = bytes handed to the application while the stream is receiving; and the
    span of buffered data (highest received offset - consumed) is at most the stream window, so no
    peer can make a stream buffer more than its window. *)
-Theorem C04_advertised_credit_bound : forall ws wc ops,
-  ws <= u32_max -> wc <= u32_max ->
-  let m := FlowRecvProofs.exec (FlowRecv.minit ws wc) ops in
+Theorem C04_advertised_credit_bound : forall ws wl wc ops,
+  ws <= u32_max -> wl <= u32_max -> wc <= u32_max ->
+  let m := FlowRecvProofs.exec (FlowRecv.minit ws wl wc) ops in
   FlowRecv.latest (FlowRecv.csync (FlowRecv.conn m))
     <= FlowRecv.ccons (FlowRecv.conn m) + FlowRecv.cwin (FlowRecv.conn m)
   /\ Forall (fun s =>
@@ -83,9 +83,9 @@ Proof. exact FlowRecvProofs.transmitted_value. Qed.
    20 (MAX_STREAM_DATA 20, MAX_DATA 110 are transmitted), byte 20 is accepted, byte 21 is refused
    with FLOW_CONTROL_ERROR and nothing more is delivered; and the judgement accepts this run *)
 Example C04_example :
-  FlowRecv.run [10; 100; 1; 0; 0; 10; 0; 3; 0; 10; 5; 1; 0; 10; 10; 0; 1; 0; 20; 1; 0]%Z
+  FlowRecv.run [10; 10; 100; 1; 0; 0; 10; 0; 3; 0; 10; 5; 1; 0; 10; 10; 0; 1; 0; 20; 1; 0]%Z
     = [0; 10; 0; 1; 1; 10; 110; 20; -1; -1; -1; 0; 3; -1; -1; -1; -1]%Z
-  /\ FlowRecvSpec.judge [10; 100; 1; 0; 0; 10; 0; 3; 0; 10; 5; 1; 0; 10; 10; 0; 1; 0; 20; 1; 0]%Z
+  /\ FlowRecvSpec.judge [10; 10; 100; 1; 0; 0; 10; 0; 3; 0; 10; 5; 1; 0; 10; 10; 0; 1; 0; 20; 1; 0]%Z
         [0; 10; 0; 1; 1; 10; 110; 20; -1; -1; -1; 0; 3; -1; -1; -1; -1]%Z = true.
 Proof. split; vm_compute; reflexivity. Qed.
 
